@@ -133,6 +133,16 @@ package main
 //@   trace[C09,listens-on-configured-address] loop 4 each main.(*listenerSet).ListenStream satisfies $arg1 == lnConfig.Address
 //@   trace[C09,listens-on-configured-address-udp] loop 4 each main.(*listenerSet).ListenPacket satisfies $arg1 == lnConfig.Address
 //@   trace[C09,one-listener-per-entry] loop 4 atmost 1 main.(*listenerSet).Listen*
+//@   trace[C10,C11,every-listener-of-a-generation-belongs-to-its-set] never service.ListenerManager.Listen*
+//@   trace[C11,legacy-keys-installed-before-serving] loop 2 before service.(*cipherList).Update go:*
+//@   trace[C09,C11,legacy-keys-installed-once-per-port] loop 2 exactly 1 service.(*cipherList).Update
+//@   trace[C15,C16,C17,every-legacy-service-reports-to-the-server-metrics] loop 2 exactly 1 service.WithMetrics
+//@   trace[C15,C16,C17,every-service-reports-to-the-server-metrics] loop 3 exactly 1 service.WithMetrics
+//@   trace[C15,C16,C17,reports-go-to-the-server-metrics] each service.WithMetrics satisfies $arg0 == s.serviceMetrics
+//@   trace[C07,every-legacy-service-checks-the-replay-history] loop 2 exactly 1 service.WithReplayCache
+//@   trace[C07,every-configured-service-checks-the-replay-history] loop 3 exactly 1 service.WithReplayCache
+//@   trace[C09,every-legacy-service-gets-its-keys] loop 2 exactly 1 service.WithCiphers
+//@   trace[C09,every-configured-service-gets-its-keys] loop 3 exactly 1 service.WithCiphers
 //@   trace[C10,listen-failure-fails-the-start] each main.(*listenerSet).Listen* satisfies $res1 != nil ==> result != nil
 //@   trace[C10,bad-key-fails-the-start] each shadowsocks.NewEncryptionKey satisfies $res1 != nil ==> result != nil
 //@   trace[C10,bad-key-list-fails-the-start] each main.newCipherListFromConfig satisfies $res1 != nil ==> result != nil
@@ -160,6 +170,8 @@ package main
 //@   props C07 C18 C19
 //@   params filename natTimeout serverMetrics serviceMetrics replayHistory
 //@   requires replayHistory <= 20000 && validServerMetrics(serverMetrics)
+//@   trace[C07,the-history-remembers-as-many-handshakes-as-configured] each service.NewReplayCache satisfies $arg0 == replayHistory
+//@   trace[C07,one-history-for-the-process] exactly 1 service.NewReplayCache
 
 // newCipherListFromConfig: per configured key, an entry is appended exactly when its (cipher, secret)
 // pair has not been seen before in this service, built from this key's own ID, cipher and secret, and
